@@ -159,7 +159,7 @@ type sampleModel struct {
 }
 
 func loadSample(name string) sampleModel {
-	b, err := os.ReadFile("/repo/sample_models/onnx_models/" + name + ".onnx")
+	b, err := os.ReadFile(hx.RepoDir() + "/sample_models/onnx_models/" + name + ".onnx")
 	if err != nil {
 		hx.HarnessError("cannot read sample model %s: %v", name, err)
 	}
